@@ -526,7 +526,7 @@ fn long_query(rng: &mut Rng, edns: bool) -> Vec<u8> {
 }
 
 pub fn gen(rng: &mut Rng, thorough: bool, em: &mut Emitter) {
-    let n_cat = if thorough { 2500 } else { 220 };
+    let n_cat = if thorough { 2500 } else { 330 };
     let per = if thorough { 36 } else { 20 };
     for _ in 0..n_cat {
         let zs = g_server::gen_catalog(rng);
